@@ -12,11 +12,42 @@ namespace Coh
 open OF (bamt vadd xbalance nullPosts isNullPost inferred)
 
 /-- the posting as `FinX.finalize` receives it -/
-abbrev fp (env : PrecEnv) (p : Posting) : FinX.FPost := FinX.FPost.ofPosting env p
+abbrev fp (env : PrecEnv) (p : Posting) : FinX.FPost := FinX.FPost.ofPosting env ⟨p, none⟩
 
 theorem fp_mustBalance (env : PrecEnv) (p : Posting) : (fp env p).mustBalance = p.mustBalance := rfl
 
-theorem fp_amount (env : PrecEnv) (p : Posting) : (fp env p).amount = p.amount := rfl
+theorem fp_amount (env : PrecEnv) (p : Posting) : (fp env p).amount = p.amount :=
+  FinX.ofPosting_amount_plain env ⟨p, none⟩ rfl
+
+theorem fp_account (env : PrecEnv) (p : Posting) : (fp env p).account = p.account := rfl
+
+theorem fp_kind (env : PrecEnv) (p : Posting) : (fp env p).kind = p.kind := rfl
+
+theorem fp_cost (env : PrecEnv) (p : Posting) :
+    (fp env p).cost = match p.amount, p.cost with
+      | some a, some c => some (FinX.parseCost env a c)
+      | _, _ => none := rfl
+
+/-- `FPost.ofPosting` of a posting without lot, spelled out -/
+theorem fp_eq (env : PrecEnv) (p : Posting) :
+    fp env p = { account := p.account, kind := p.kind, state := p.state, amount := p.amount,
+                 cost := (match p.amount, p.cost with
+                   | some a, some c => some (FinX.parseCost env a c)
+                   | _, _ => none),
+                 calculated := false, costCalculated := false, generated := false, inferred := false,
+                 lotPrice := none } := by
+  obtain ⟨acct, kind, st, amt, cost, asr, note, line⟩ := p
+  cases amt <;> cases cost <;> rfl
+
+theorem fp_lotPrice (env : PrecEnv) (p : Posting) : (fp env p).lotPrice = none := by
+  rw [fp_eq]
+
+/-- the plain transaction as `FinX.finalize` receives it -/
+theorem ofXact_posts (env : PrecEnv) (x : Xact) :
+    (FinX.LXact.ofXact x).posts.map (FinX.FPost.ofPosting env) = x.posts.map (fp env) := by
+  unfold FinX.LXact.ofXact
+  simp only [List.map_map]
+  rfl
 
 /-- the total cost of C01's reader, flag cleared by `rounded()`, is C08's `totalCost` -/
 theorem parseCost_unkeep (env : PrecEnv) (a : Amount) (c : Cost) :
@@ -34,8 +65,8 @@ theorem costOrAmt_fp (env : PrecEnv) (p : Posting) (hm : p.mustBalance = true)
     (hk : ∀ a, p.amount = some a → a.keep = false) :
     (FinX.costOrAmt (fp env p)).map (fun a => ({ a with keep := false } : Amount)) = bamt p := by
   unfold bamt
-  rw [if_pos hm]
-  unfold FinX.costOrAmt fp FinX.FPost.ofPosting
+  rw [if_pos hm, fp_eq]
+  unfold FinX.costOrAmt
   cases ha : p.amount with
   | none => rfl
   | some a =>
@@ -51,7 +82,8 @@ theorem costOrAmt_fp (env : PrecEnv) (p : Posting) (hm : p.mustBalance = true)
 
 theorem costOrAmt_fp_none (env : PrecEnv) (p : Posting) :
     FinX.costOrAmt (fp env p) = none ↔ p.amount = none := by
-  unfold FinX.costOrAmt fp FinX.FPost.ofPosting
+  rw [fp_eq]
+  unfold FinX.costOrAmt
   cases p.amount <;> cases p.cost <;> simp
 
 theorem nullPosts_cons (p : Posting) (ps : List Posting) :
@@ -217,11 +249,113 @@ theorem wfV_foldl (l : List Amount) : ∀ v, VAB v → FinX.wfV v → FinX.wfV (
 
 theorem wfV_xbalance (ps : List Posting) : FinX.wfV (xbalance ps) := wfV_foldl _ _ trivial trivial
 
+/-! ### every entry of the residual is an unannotated commodity -/
+
+/-- every entry of the residual fold satisfies a property of the commodity that
+    all folded amounts satisfy -/
+def entriesP (P : Comm → Prop) : Value → Prop
+  | .amt a => P a.comm
+  | .bal b => ∀ x ∈ b, P x.comm
+  | _ => True
+
+theorem entriesP_addGo (P : Comm → Prop) (b : Balance) (a : Amount) (hb : ∀ x ∈ b, P x.comm) (ha : P a.comm) :
+    ∀ x ∈ Balance.addGo b a, P x.comm := by
+  induction b with
+  | nil => intro x hx; simp only [Balance.addGo, List.mem_cons, List.not_mem_nil, or_false] at hx; rw [hx]; exact ha
+  | cons y ys ih =>
+    intro x hx
+    unfold Balance.addGo at hx
+    split at hx
+    · rcases List.mem_cons.1 hx with rfl | hx'
+      · exact hb y List.mem_cons_self
+      · exact hb x (List.mem_cons_of_mem _ hx')
+    · rcases List.mem_cons.1 hx with rfl | hx'
+      · exact hb _ List.mem_cons_self
+      · exact ih (fun z hz => hb z (List.mem_cons_of_mem _ hz)) x hx'
+
+theorem entriesP_addAmt (P : Comm → Prop) (b : Balance) (a : Amount) (hb : ∀ x ∈ b, P x.comm) (ha : P a.comm) :
+    ∀ x ∈ Balance.addAmt b a, P x.comm := by
+  unfold Balance.addAmt
+  split
+  · exact hb
+  · exact entriesP_addGo P b a hb ha
+
+theorem entriesP_vadd (P : Comm → Prop) (v : Value) (a : Amount) (hvab : VAB v) (hv : entriesP P v)
+    (ha : P a.comm) : entriesP P (vadd v a) := by
+  cases v with
+  | void => exact ha
+  | amt x =>
+    simp only [vadd]
+    split
+    · exact hv
+    · apply entriesP_addAmt P _ a _ ha
+      intro y hy
+      unfold Balance.ofAmt at hy
+      split at hy
+      · cases hy
+      · simp only [List.mem_cons, List.not_mem_nil, or_false] at hy; rw [hy]; exact hv
+  | bal b => exact entriesP_addAmt P b a hv ha
+  | int n => cases hvab
+  | bool _ => cases hvab
+
+theorem entriesP_foldl (P : Comm → Prop) (l : List Amount) (hl : ∀ a ∈ l, P a.comm) :
+    ∀ v, VAB v → entriesP P v → entriesP P (l.foldl vadd v) := by
+  induction l with
+  | nil => intro v _ h; exact h
+  | cons a l ih =>
+    intro v hvab hv
+    exact ih (fun x hx => hl x (List.mem_cons_of_mem _ hx)) _ (VAB_vadd v a hvab)
+      (entriesP_vadd P v a hvab hv (hl a List.mem_cons_self))
+
+theorem totalCost_comm (a : Amount) (c : Cost) : (OF.totalCost a c).comm = c.amt.comm := by
+  unfold OF.totalCost; split <;> rfl
+
+theorem xbalance_plain (ps : List Posting) (hl : noLotAmt ps = true) (hc : noLotCost ps = true) :
+    entriesP (fun c => plain c = true) (xbalance ps) := by
+  unfold xbalance
+  refine entriesP_foldl _ _ ?_ .void trivial trivial
+  intro a ha
+  obtain ⟨p, hp, hpa⟩ := List.mem_filterMap.1 ha
+  unfold noLotAmt at hl
+  unfold noLotCost at hc
+  have h1 := List.all_eq_true.1 hl p hp
+  have h2 := List.all_eq_true.1 hc p hp
+  unfold bamt at hpa
+  split at hpa
+  · cases hamt : p.amount with
+    | none => rw [hamt] at hpa; cases hpa
+    | some x =>
+      rw [hamt] at hpa h1
+      cases hcost : p.cost with
+      | none =>
+        rw [hcost] at hpa
+        simp only [Option.some.injEq] at hpa
+        rw [← hpa]; exact h1
+      | some k =>
+        rw [hcost] at hpa h2
+        simp only [Option.some.injEq] at hpa
+        rw [← hpa, totalCost_comm]; exact h2
+  · cases hpa
+
+theorem inferred_plain (v : Value) (hv : entriesP (fun c => plain c = true) v) :
+    ∀ a ∈ inferred v, plain a.comm = true := by
+  cases v with
+  | void => intro a ha; cases ha
+  | amt x => intro a ha; simp only [inferred, List.mem_cons, List.not_mem_nil, or_false] at ha; rw [ha]; exact hv
+  | bal b =>
+    intro a ha
+    simp only [inferred, List.mem_map] at ha
+    obtain ⟨x, hx, rfl⟩ := ha
+    exact hv x ((OF.isort_perm _ b).mem_iff.1 hx)
+  | int n => intro a ha; simp only [inferred, List.mem_cons, List.not_mem_nil, or_false] at ha; rw [ha]; rfl
+  | bool _ => intro a ha; cases ha
+
 /-! ### filling the elided posting -/
 
 theorem sortedAmounts_fin_eq_of (enum : Balance → Balance) (henum : ∀ b, (enum b).Perm b)
-    (b : Balance) (hw : FinX.wfB b) : FinX.sortedAmounts enum b = OF.sortedAmounts b := by
-  rw [sortedAmounts_of_eq_fin]
+    (b : Balance) (hw : FinX.wfB b) (hp : ∀ x ∈ b, plain x.comm = true) :
+    FinX.sortedAmounts enum b = OF.sortedAmounts b := by
+  rw [sortedAmounts_of_eq_fin b hp]
   unfold FinX.sortedAmounts
   have key : FinX.sortByComm (enum b) = FinX.sortByComm b :=
     FinX.sortByComm_eq_of_perm (henum b) (FinX.wfB_perm (henum b).symm hw)
@@ -235,14 +369,14 @@ theorem sortedAmounts_fin_eq_of (enum : Balance → Balance) (henum : ∀ b, (en
 /-- xact.cc 363-370: the amounts the elided posting offsets are the negations of
     `OF.inferred`. -/
 theorem fillAmounts_vab (enum : Balance → Balance) (henum : ∀ b, (enum b).Perm b) (B : Value)
-    (hB : VAB B) (hw : FinX.wfV B) :
+    (hB : VAB B) (hw : FinX.wfV B) (hp : entriesP (fun c => plain c = true) B) :
     ∃ amts, FinX.fillAmounts enum B = .ok amts ∧ amts.map Amount.neg = inferred B := by
   cases B with
   | void => exact ⟨[], rfl, rfl⟩
   | amt a => exact ⟨[a], rfl, rfl⟩
   | bal b =>
     refine ⟨FinX.sortedAmounts enum b, rfl, ?_⟩
-    rw [sortedAmounts_fin_eq_of enum henum b hw]
+    rw [sortedAmounts_fin_eq_of enum henum b hw hp]
     rfl
   | int _ => cases hB
   | bool _ => cases hB
@@ -256,23 +390,123 @@ theorem allSome_of (ps : List Posting) (hv : noVirtNull ps = true) (hn : nullPos
   unfold isNullPost at h1
   cases hm : p.mustBalance <;> cases ha : p.amount <;> simp_all
 
-theorem rows_allSome (env : PrecEnv) (inf : List Amount) : ∀ (ps : List Posting),
-    (∀ p ∈ ps, p.amount.isSome = true) → (ps.map (fp env)).filterMap rowOfFin = rowsOf inf ps := by
+/-! ### the cost loop xact.cc 288-352 on postings without lot price -/
+
+/-- what `lotStep` leaves of a posting (the posting itself should it raise) -/
+def lotG (env : PrecEnv) (date : String) (p : FinX.FPost) : FinX.FPost :=
+  match FinX.lotStep env date p with
+  | .ok (p', _) => p'
+  | .error _ => p
+
+theorem lotStep_eq (env : PrecEnv) (date : String) (p : FinX.FPost) (h : p.lotPrice = none) :
+    FinX.lotStep env date p = .ok (lotG env date p, none) := by
+  obtain ⟨p1, hs⟩ := FinX.lotStep_nogain env date p (Or.inl h)
+  unfold lotG
+  rw [hs]
+
+theorem lotG_nocost (env : PrecEnv) (date : String) (p : FinX.FPost) (h : p.cost = none) :
+    lotG env date p = p := by
+  unfold lotG
+  rw [FinX.lotStep_nocost env date p h]
+
+theorem lotG_isNone (env : PrecEnv) (date : String) (p : FinX.FPost) (h : p.lotPrice = none) :
+    (lotG env date p).amount.isNone = p.amount.isNone := by
+  obtain ⟨_, _, _, h4, _⟩ := FinX.lotStep_spec env date p _ none (lotStep_eq env date p h)
+  cases h1 : (lotG env date p).amount <;> cases h2 : p.amount <;> simp_all
+
+/-- the loop leaves the balance alone and maps `lotG` over the postings -/
+theorem lotLoop_map (env : PrecEnv) (date : String) : ∀ (L : List FinX.FPost) (B : Value),
+    (∀ p ∈ L, p.lotPrice = none) → FinX.lotLoop env date L B = .ok (L.map (lotG env date), B) := by
+  intro L
+  induction L with
+  | nil => intro B _; rfl
+  | cons p ps ih =>
+    intro B h
+    unfold FinX.lotLoop
+    rw [lotStep_eq env date p (h p List.mem_cons_self)]
+    simp only [FinX.addGain]
+    rw [ih B (fun q hq => h q (List.mem_cons_of_mem _ hq))]
+    rfl
+
+/-- the computed lot annotation does not change the row: same quantity, same
+    precision counter, and the BASE commodity of `BASE{price}[date]` -/
+theorem rowOfFin_lotG (env : PrecEnv) (date : String) (p : FinX.FPost) (h : p.lotPrice = none)
+    (hp : ∀ a, p.amount = some a → plain a.comm = true) : rowOfFin (lotG env date p) = rowOfFin p := by
+  obtain ⟨acct, kind, st, amount, cost, cl, cc, gen, inf, lp⟩ := p
+  simp only at h hp
+  subst h
+  unfold lotG FinX.lotStep
+  cases cost with
+  | none => rfl
+  | some cost =>
+    cases amount with
+    | none => rfl
+    | some amt =>
+      simp only
+      obtain ⟨pu, hpu⟩ := FinX.perUnitCost_ok env amt cost
+      rw [hpu]
+      simp only [rowOfFin, Option.map_some]
+      rw [lotBase_annotate amt.comm pu date (hp amt rfl), lotBase_plain amt.comm (hp amt rfl)]
+
+/-- a parsed posting after the cost loop -/
+abbrev fpg (env : PrecEnv) (date : String) (p : Posting) : FinX.FPost := lotG env date (fp env p)
+
+theorem lotLoop_fp (env : PrecEnv) (date : String) (ps : List Posting) (B : Value) :
+    FinX.lotLoop env date (ps.map (fp env)) B = .ok (ps.map (fpg env date), B) := by
+  rw [lotLoop_map env date _ B (by
+    intro q hq
+    obtain ⟨p, _, rfl⟩ := List.mem_map.1 hq
+    exact fp_lotPrice env p), List.map_map]
+  rfl
+
+theorem fpg_isNone (env : PrecEnv) (date : String) (p : Posting) :
+    (fpg env date p).amount.isNone = p.amount.isNone := by
+  rw [lotG_isNone env date _ (fp_lotPrice env p), fp_amount]
+
+theorem fpg_null (env : PrecEnv) (date : String) (p : Posting) (h : p.amount = none) :
+    fpg env date p = fp env p := by
+  apply lotG_nocost
+  rw [fp_cost, h]
+
+theorem rowOfFin_fp (env : PrecEnv) (p : Posting) (hp : ∀ a, p.amount = some a → plain a.comm = true) :
+    rowOfFin (fp env p) = p.amount.map (fun a => (⟨p.account, p.kind, a⟩ : Row)) := by
+  rw [fp_eq]
+  unfold rowOfFin
+  cases ha : p.amount with
+  | none => rfl
+  | some a =>
+    simp only [Option.map_some]
+    rw [lotBase_plain a.comm (hp a ha)]
+
+theorem rowOfFin_fpg (env : PrecEnv) (date : String) (p : Posting)
+    (hp : ∀ a, p.amount = some a → plain a.comm = true) :
+    rowOfFin (fpg env date p) = p.amount.map (fun a => (⟨p.account, p.kind, a⟩ : Row)) := by
+  rw [rowOfFin_lotG env date _ (fp_lotPrice env p) (by rw [fp_amount]; exact hp), rowOfFin_fp env p hp]
+
+theorem noLotAmt_mem (ps : List Posting) (h : noLotAmt ps = true) :
+    ∀ p ∈ ps, ∀ a, p.amount = some a → plain a.comm = true := by
+  intro p hp a ha
+  unfold noLotAmt at h
+  have := List.all_eq_true.1 h p hp
+  rw [ha] at this
+  exact this
+
+theorem rows_allSome (env : PrecEnv) (date : String) (inf : List Amount) : ∀ (ps : List Posting),
+    (∀ p ∈ ps, p.amount.isSome = true) → (∀ p ∈ ps, ∀ a, p.amount = some a → plain a.comm = true) →
+    (ps.map (fpg env date)).filterMap rowOfFin = rowsOf inf ps := by
   intro ps
   induction ps with
-  | nil => intro _; rfl
+  | nil => intro _ _; rfl
   | cons p ps ih =>
-    intro h
+    intro h hl
     have hp := h p List.mem_cons_self
     cases ha : p.amount with
     | none => rw [ha] at hp; cases hp
     | some a =>
       simp only [List.map_cons, List.filterMap_cons, rowsOf, ha]
-      have : rowOfFin (fp env p) = some ⟨p.account, p.kind, a⟩ := by
-        simp [rowOfFin, ha, fp, FinX.FPost.ofPosting]
-      rw [this]
-      simp only
-      rw [ih (fun q hq => h q (List.mem_cons_of_mem _ hq))]
+      rw [rowOfFin_fpg env date p (hl p List.mem_cons_self), ha]
+      simp only [Option.map_some]
+      rw [ih (fun q hq => h q (List.mem_cons_of_mem _ hq)) (fun q hq => hl q (List.mem_cons_of_mem _ hq))]
 
 theorem noVirtNull_append {a b : List Posting} (h : noVirtNull (a ++ b) = true) :
     noVirtNull a = true ∧ noVirtNull b = true := by
@@ -286,11 +520,14 @@ theorem noVirtNull_tail {p : Posting} {ps : List Posting} (h : noVirtNull (p :: 
   simp only [List.all_cons, Bool.and_eq_true] at h
   exact h.2
 
-theorem fin_all_some (env : PrecEnv) (ps : List Posting) (h : ∀ p ∈ ps, p.amount.isSome = true) :
-    ∀ q ∈ ps.map (fp env), q.amount.isSome = true := by
+theorem fin_all_some (env : PrecEnv) (date : String) (ps : List Posting)
+    (h : ∀ p ∈ ps, p.amount.isSome = true) :
+    ∀ q ∈ ps.map (fpg env date), q.amount.isSome = true := by
   intro q hq
   obtain ⟨p, hp, rfl⟩ := List.mem_map.1 hq
-  exact h p hp
+  have h1 := fpg_isNone env date p
+  have h2 := h p hp
+  cases h3 : (fpg env date p).amount <;> cases h4 : p.amount <;> simp_all
 
 theorem finish_ok_of (L : List FinX.FPost) (hne : L ≠ []) (h : ∀ q ∈ L, q.amount.isSome = true) :
     FinX.finish L = .ok ⟨L⟩ := by
@@ -344,56 +581,74 @@ def extraPost (q : FinX.FPost) (r : Amount) : FinX.FPost :=
 theorem fillPosts_cons (ps : List FinX.FPost) (i : Nat) (q : FinX.FPost) (a : Amount) (rest : List Amount) :
     FinX.fillPosts ps i q (a :: rest) = ps.set i (filled q a) ++ rest.map (extraPost q) := rfl
 
-theorem extra_rows (q : FinX.FPost) (rest : List Amount) :
+theorem rowOfFin_filled (q : FinX.FPost) (a : Amount) (h : plain a.comm = true) :
+    rowOfFin (filled q a) = some ⟨q.account, q.kind, a.neg⟩ := by
+  unfold rowOfFin filled
+  simp only [Option.map_some]
+  have : (a.neg).comm = a.comm := rfl
+  rw [this, lotBase_plain a.comm h]
+  rfl
+
+theorem extra_rows (q : FinX.FPost) (rest : List Amount) (h : ∀ r ∈ rest, plain r.comm = true) :
     (rest.map (extraPost q)).filterMap rowOfFin
       = (rest.map Amount.neg).map (fun a => (⟨q.account, q.kind, a⟩ : Row)) := by
   induction rest with
   | nil => rfl
   | cons r rs ih =>
     simp only [List.map_cons, List.filterMap_cons]
-    have : rowOfFin (extraPost q r) = some ⟨q.account, q.kind, r.neg⟩ := rfl
+    have : rowOfFin (extraPost q r) = some ⟨q.account, q.kind, r.neg⟩ := rowOfFin_filled _ r (h r List.mem_cons_self)
     rw [this]
     simp only
-    rw [ih]
+    rw [ih (fun x hx => h x (List.mem_cons_of_mem _ hx))]
+
+theorem costsOk_fp (env : PrecEnv) (ps : List Posting) (hco : costOtherComm ps = true) :
+    FinX.costsOk (ps.map (fp env)) = true := by
+  unfold FinX.costsOk
+  rw [List.all_eq_true]
+  intro q hq
+  obtain ⟨p, hp, rfl⟩ := List.mem_map.1 hq
+  unfold costOtherComm at hco
+  have := List.all_eq_true.1 hco p hp
+  rw [fp_eq]
+  cases ha : p.amount with
+  | none => simp
+  | some a =>
+    cases hc : p.cost with
+    | none => simp
+    | some c =>
+      rw [ha, hc] at this
+      simp only [bne_iff_ne, ne_eq] at this
+      have hpc : (FinX.parseCost env a c).comm = c.amt.comm := by
+        have := congrArg Amount.comm (parseCost_unkeep env a c)
+        simp only at this
+        rw [this, totalCost_comm]
+      simp [hpc, this]
 
 /-- One elided must-balance posting: `FinX.finalizeF` in closed form. -/
-theorem fin_oneNull (env : PrecEnv) (enum : Balance → Balance) (henum : ∀ b, (enum b).Perm b)
+theorem fin_oneNull (env : PrecEnv) (enum : Balance → Balance) (henum : ∀ b, (enum b).Perm b) (date : String)
     (ps : List Posting) (n : Posting) (hnull : nullPosts ps = [n])
-    (hk : noKeepAmt ps = true) (hvn : noVirtNull ps = true) (hco : costOtherComm ps = true) :
-    verdictFin (FinX.finalizeF env none enum (ps.map (fp env))) = ref env ps := by
+    (hk : noKeepAmt ps = true) (hvn : noVirtNull ps = true) (hco : costOtherComm ps = true)
+    (hla : noLotAmt ps = true) (hlc : noLotCost ps = true) :
+    verdictFin (FinX.finalizeF env none enum date (ps.map (fp env))) = ref env ps := by
   obtain ⟨pre, post, e, hpre, hpost, hn⟩ := filter_singleton_split isNullPost ps n hnull
   have hscan := scan_oneNull env post n pre 0 .void trivial (e ▸ hk) hpre hpost hn
   rw [← e] at hscan
   have hB : VAB (xbalance ps) := VAB_xbalance ps
   have hw : FinX.wfV (xbalance ps) := wfV_xbalance ps
-  obtain ⟨amts, hfa, hinf⟩ := fillAmounts_vab enum henum (xbalance ps) hB hw
-  have hidx : (ps.map (fp env))[pre.length]? = some (fp env n) := by
-    rw [e, List.map_append, List.map_cons]
-    have := FinX.getElem?_length_append (pre.map (fp env)) (post.map (fp env)) (fp env n)
+  have hpl := xbalance_plain ps hla hlc
+  obtain ⟨amts, hfa, hinf⟩ := fillAmounts_vab enum henum (xbalance ps) hB hw hpl
+  have hnnone : n.amount = none := by
+    unfold isNullPost at hn
+    simp only [Bool.and_eq_true, Option.isNone_iff_eq_none] at hn
+    exact hn.2
+  have hmapg : ps.map (fpg env date)
+      = pre.map (fpg env date) ++ fp env n :: post.map (fpg env date) := by
+    rw [e, List.map_append, List.map_cons, fpg_null env date n hnnone]
+  have hidx : (ps.map (fpg env date))[pre.length]? = some (fp env n) := by
+    rw [hmapg]
+    have := FinX.getElem?_length_append (pre.map (fpg env date)) (post.map (fpg env date)) (fp env n)
     simp at this ⊢
-  have hcosts : FinX.costsOk (ps.map (fp env)) = true := by
-    unfold FinX.costsOk
-    rw [List.all_eq_true]
-    intro q hq
-    obtain ⟨p, hp, rfl⟩ := List.mem_map.1 hq
-    unfold costOtherComm at hco
-    have := List.all_eq_true.1 hco p hp
-    unfold fp FinX.FPost.ofPosting
-    cases ha : p.amount with
-    | none => simp
-    | some a =>
-      cases hc : p.cost with
-      | none => simp
-      | some c =>
-        rw [ha, hc] at this
-        simp only [bne_iff_ne, ne_eq] at this
-        have hpc : (FinX.parseCost env a c).comm = c.amt.comm := by
-          have := congrArg Amount.comm (parseCost_unkeep env a c)
-          simp only at this
-          rw [this]
-          unfold OF.totalCost
-          split <;> rfl
-        simp [hpc, this]
+  have hcosts := costsOk_fp env ps hco
   have hscan' : FinX.scan (ps.map (fp env)) 0 .void none
       = .ok (xbalance ps, some (pre.length, n.account)) := by
     rw [hscan]; simp [xbalance]
@@ -404,68 +659,80 @@ theorem fin_oneNull (env : PrecEnv) (enum : Balance → Balance) (henum : ∀ b,
       = .ok (ps.map (fp env), xbalance ps) := by
     unfold FinX.exchange2; rfl
   rw [hex]
-  simp only [hcosts]
+  simp only [hcosts, lotLoop_fp]
   unfold FinX.fillNull
   simp only [hidx, hfa]
   -- the reference side
   unfold ref
   rw [hnull]
   simp only
+  have hla' := noLotAmt_mem ps hla
   have hpreS := allSome_of pre (noVirtNull_append (e ▸ hvn)).1 hpre
   have hpostS := allSome_of post (noVirtNull_tail (noVirtNull_append (e ▸ hvn)).2) hpost
+  have hpreL : ∀ p ∈ pre, ∀ a, p.amount = some a → plain a.comm = true :=
+    fun p hp => hla' p (by rw [e]; simp [hp])
+  have hpostL : ∀ p ∈ post, ∀ a, p.amount = some a → plain a.comm = true :=
+    fun p hp => hla' p (by rw [e]; simp [hp])
   cases amts with
   | nil =>
     have hi : inferred (xbalance ps) = [] := by rw [← hinf]; rfl
     rw [if_pos hi]
     simp only [FinX.fillPosts, FinX.isNull, FinX.valueIsZero]
     unfold FinX.finish
-    have hall : (ps.map (fp env)).all (fun p => p.amount.isNone) = ps.all (fun p => p.amount.isNone) := by
-      rw [List.all_map]; rfl
-    have hany : (ps.map (fp env)).any (fun p => p.amount.isNone) = true := by
+    have hall : (ps.map (fpg env date)).all (fun p => p.amount.isNone) = ps.all (fun p => p.amount.isNone) := by
+      rw [List.all_map]
+      apply List.all_congr rfl
+      intro p
+      exact fpg_isNone env date p
+    have hany : (ps.map (fpg env date)).any (fun p => p.amount.isNone) = true := by
       rw [List.any_eq_true]
-      refine ⟨fp env n, List.mem_map.2 ⟨n, by rw [e]; simp, rfl⟩, ?_⟩
-      unfold isNullPost at hn
-      simp only [Bool.and_eq_true] at hn
-      exact hn.2
+      refine ⟨fp env n, ?_, ?_⟩
+      · rw [hmapg]; simp
+      · rw [fp_amount, hnnone]; rfl
     rw [hall, hany]
     cases h : ps.all (fun p => p.amount.isNone) <;> simp [verdictFin]
   | cons a rest =>
     have hi : inferred (xbalance ps) = a.neg :: rest.map Amount.neg := by rw [← hinf]; rfl
     have hne : inferred (xbalance ps) ≠ [] := by rw [hi]; simp
+    have hinfp := inferred_plain (xbalance ps) hpl
+    have hap : plain a.comm = true := by
+      have := hinfp a.neg (by rw [hi]; exact List.mem_cons_self)
+      exact this
+    have hrestp : ∀ r ∈ rest, plain r.comm = true := by
+      intro r hr
+      have := hinfp r.neg (by rw [hi]; exact List.mem_cons_of_mem _ (List.mem_map.2 ⟨r, hr, rfl⟩))
+      exact this
     rw [if_neg hne]
     simp only [fillPosts_cons, FinX.isNull]
-    -- the filled list
-    have hset : (ps.map (fp env)).set pre.length (filled (fp env n) a)
-        = pre.map (fp env) ++ (filled (fp env n) a) :: post.map (fp env) := by
-      rw [e, List.map_append, List.map_cons]
-      have := FinX.set_length_append (pre.map (fp env)) (post.map (fp env)) (fp env n)
+    have hset : (ps.map (fpg env date)).set pre.length (filled (fp env n) a)
+        = pre.map (fpg env date) ++ (filled (fp env n) a) :: post.map (fpg env date) := by
+      rw [hmapg]
+      have := FinX.set_length_append (pre.map (fpg env date)) (post.map (fpg env date)) (fp env n)
         (filled (fp env n) a)
       simp at this ⊢
     rw [hset]
-    have hL : ∀ q ∈ pre.map (fp env) ++ (filled (fp env n) a) ::
-          post.map (fp env) ++ rest.map (extraPost (fp env n)), q.amount.isSome = true := by
+    have hL : ∀ q ∈ pre.map (fpg env date) ++ (filled (fp env n) a) ::
+          post.map (fpg env date) ++ rest.map (extraPost (fp env n)), q.amount.isSome = true := by
       intro q hq
-      simp only [List.mem_append, List.mem_cons, List.mem_map] at hq
-      rcases hq with ((⟨p, hp, rfl⟩ | rfl | ⟨p, hp, rfl⟩) | ⟨r, _, rfl⟩)
-      · exact hpreS p hp
+      simp only [List.mem_append, List.mem_cons] at hq
+      rcases hq with ((hq | rfl | hq) | hq)
+      · exact fin_all_some env date pre hpreS q hq
       · rfl
-      · exact hpostS p hp
-      · rfl
+      · exact fin_all_some env date post hpostS q hq
+      · obtain ⟨r, _, rfl⟩ := List.mem_map.1 hq; rfl
     rw [finish_ok_of _ (by simp) hL]
     simp only [Bool.true_eq_false, if_false, false_and, verdictFin, List.filterMap_append,
       List.filterMap_cons]
-    rw [rows_allSome env (inferred (xbalance ps)) pre hpreS,
-        rows_allSome env (inferred (xbalance ps)) post hpostS]
+    rw [rows_allSome env date (inferred (xbalance ps)) pre hpreS hpreL,
+        rows_allSome env date (inferred (xbalance ps)) post hpostS hpostL]
     congr 1
     rw [e, rowsOf_split _ a.neg (rest.map Amount.neg) (e ▸ hi) pre post n hn hpreS]
-    have hrow : rowOfFin (filled (fp env n) a)
-        = some ⟨n.account, n.kind, a.neg⟩ := rfl
-    rw [hrow]
+    rw [rowOfFin_filled (fp env n) a hap]
     simp only [List.append_assoc, List.cons_append]
     congr 2
     rw [e] at hi
     simp only [extraRows, hi, List.drop_one, List.tail_cons]
-    rw [extra_rows (fp env n) rest]
+    rw [extra_rows (fp env n) rest hrestp]
     rfl
 
 end Coh
